@@ -392,3 +392,32 @@ def rule_O1(ctx, R):
                 res.ok(f["path"])
     res.need(25, "methods of OwnedLockCollection")
     return res
+
+
+def rule_R2(ctx, R):
+    res = RuleResult("R2", "drop order of key carriers: the ThreadKey field is declared after every field that can own a hold, so a "
+                           "plain drop(guard) releases the locks before the key's Drop re-arms ThreadKey::get")
+    holdish = set(R.holdtypes) | R.hold_owners | {"poisonable::PoisonRef"}
+    for p in sorted(R.key_carriers):
+        a = ctx.F.adts[p]
+        if a["kind"] != "Struct":
+            res.ok(p + " (enum: one payload per variant)")
+            continue
+        fields = a["variants"][0]["fields"]
+        kidx = [i for i, f in enumerate(fields) if contains_by_value(f["ty"], {KEY} | R.key_carriers)]
+        hidx = [i for i, f in enumerate(fields) if contains_by_value(f["ty"], holdish) or
+                any(x["k"] in ("param", "alias") for x in by_value_types(f["ty"]))]
+        hidx = [i for i in hidx if i not in kidx]
+        if not kidx:
+            continue
+        if hidx and max(hidx) > min(kidx):
+            res.bad(Violation("R2", p, "field-order", "field `%s` (owns the key) is declared before `%s` (owns holds): dropping the guard "
+                              "re-arms ThreadKey::get while the locks are still held" % (fields[min(kidx)]["name"], fields[max(hidx)]["name"]),
+                              a["span"]["file"], a["span"]["line"]))
+        else:
+            res.ok("%s: %s" % (p, [f["name"] for f in fields]))
+        if a.get("drop_fn"):
+            res.bad(Violation("R2", p, "manual-drop", "key carrier %s has a manual Drop impl: field drop order no longer decides" % p,
+                              a["span"]["file"], a["span"]["line"]))
+    res.need(6, "key carriers")
+    return res
